@@ -43,11 +43,12 @@ type mon struct {
 	log    [][][32]byte // per applied block: ids spent, for revert
 	logM   [][][32]byte
 	stales []*stale
+	ctx    string // appended to the trace keys while a directed scenario drives the chain
 }
 
 func (m *mon) use(id [32]byte, h uint64, what string, ids *[][32]byte) {
 	if at, ok := m.spent[id]; ok {
-		m.b.Violate("C02/trace/"+what+"-used-twice", fmt.Sprintf("element %x reported %s at height %d was already %s at height %d with no revert in between", id[:8], what, h, what, at), map[string]any{"height": h})
+		m.b.Violate("C02/trace/"+what+"-used-twice"+m.ctx, fmt.Sprintf("element %x reported %s at height %d was already %s at height %d with no revert in between", id[:8], what, h, what, at), map[string]any{"height": h})
 	}
 	m.spent[id] = h
 	*ids = append(*ids, id)
@@ -58,7 +59,7 @@ func (m *mon) onApply(ev chaingen.ApplyEvent) {
 	var ids, mids [][32]byte
 	mk := func(id [32]byte) {
 		if at, ok := m.made[id]; ok {
-			m.b.Violate("C02/trace/created-twice", fmt.Sprintf("element %x created at height %d and again at %d", id[:8], at, h), nil)
+			m.b.Violate("C02/trace/created-twice"+m.ctx, fmt.Sprintf("element %x created at height %d and again at %d", id[:8], at, h), nil)
 		}
 		m.made[id] = h
 		mids = append(mids, id)
@@ -701,6 +702,9 @@ func (m *mon) onAccepted(cs consensus.State, orig types.Block, bs consensus.V1Bl
 }
 
 func run(b *harness.B) {
+	if b.Batch%4 == 0 {
+		directedLegacyAlias(b)
+	}
 	nNets := b.Pick(3, 10)
 	blocks := b.Pick(120, 500)
 	for i := 0; i < nNets; i++ {
